@@ -2910,6 +2910,38 @@ data: [DONE]\n\n";
 pub mod verif_hooks {
     use super::*;
 
+    /// One provider event as the collector sees it (the JSON `data` of a server-sent event).
+    pub fn collector_run(
+        events: &[Value],
+    ) -> (
+        Option<String>,
+        Vec<(u64, String, Option<String>, String, String)>,
+    ) {
+        let mut collector = ToolCallCollector::default();
+        for data in events {
+            let parsed = ParsedEvent {
+                kind: ParsedEventKind::Event,
+                event: None,
+                raw: String::new(),
+                data: Some(data.clone()),
+                errors: Vec::new(),
+                response_errors: Vec::new(),
+            };
+            collector.observe(&parsed);
+        }
+        let calls = collector
+            .drain_function_calls()
+            .into_iter()
+            .map(|c| (c.output_index, c.call_id, c.item_id, c.name, c.arguments))
+            .collect();
+        (collector.response_id.clone(), calls)
+    }
+
+    /// `ToolChoiceEnforcement::from_value(..).allows_function(name)`
+    pub fn tool_choice_allows(tool_choice: &Value, name: &str) -> bool {
+        ToolChoiceEnforcement::from_value(tool_choice).allows_function(name)
+    }
+
     /// The real `emit_event` on caller-supplied channel, buffer and log.
     pub async fn emit_event_raw(
         event: Event,
